@@ -830,6 +830,9 @@ func (m *machine) step(op string) string {
 }
 
 func runScript(script string) string {
+	if strings.HasPrefix(script, "typed:") {
+		return runTyped(script)
+	}
 	m := &machine{firsts: map[int]string{}}
 	var obs []string
 	for _, op := range strings.Fields(script) {
@@ -898,5 +901,13 @@ func main() {
 	for i := 0; i < n; i++ {
 		s := genScript(rng.Fork())
 		out.Case(fmt.Sprintf("g%d", i+1), s, runScript(s))
+	}
+	// the typed engines (no heap model): oracle-level cases
+	for i, s := range typedCorpus {
+		out.Case(fmt.Sprintf("tc%d", i+1), s, runScript(s))
+	}
+	for i := 0; i < n/10; i++ {
+		s := genTyped(rng.Fork())
+		out.Case(fmt.Sprintf("t%d", i+1), s, runScript(s))
 	}
 }
